@@ -13,9 +13,17 @@
 //!       run <sig> <amp32> <freq64> <seed> <dt> <ibs> <count>   — count buffers of ibs frames of a synthetic signal
 //! value/tween syntax as in suite `param`. Trace: `ok`, `= l r l r …` (output bits), digest for `run`.
 //!
+//! The `dt` of `proc` / `run` varies WITHIN a case: an `sr <rate>` op (`Effect::on_change_sample_rate`) is followed
+//! by process calls with `dt = 1 / rate`, and `dt` also changes without an `sr` op (the six effects take their
+//! time base from `dt` alone); rate-change probe cases put a long settled `run` after such a change.
+//!
 //! Oracles (implementation side, on the real code only; `in` cases unless stated):
 //!   finite_output, silence_to_silence, dry_identity_*, split_vs_whole, superposition, scaling,
 //!   volume_law, pan_law, dc_gain, comp_below_threshold, comp_steady_state, dist_curve;
+//!   rate_fresh_equiv (C14/C16): once `dt` has changed, a fresh instance built with the same settings and
+//!   initialised at the new rate gets the same input; as soon as the transient of the old state has died out
+//!   (immediately for volume / panning / distortion) the long-running instance must give the same output —
+//!   nothing may be carried over from the earlier rate;
 //!   `ood` cases: ood_nonfinite_<class> (a finite input and finite parameters gave NaN/inf).
 use crate::runner::{run_cases, Out};
 use crate::suites::param::{ids, parse_tween, Ids, InfoState, MAX_IDS};
@@ -266,6 +274,10 @@ struct Spec {
 	lin_ok: bool,
 	/// running magnitude scale for tolerances
 	scale: f64,
+	/// largest rounding-noise gain over every `dt` the case has processed with so far
+	ng_max: f64,
+	/// a process call ran with the relative cutoff at the Nyquist clamp (integrators may have grown without bound)
+	wild: bool,
 }
 
 fn fixed_of(s: &str, is32: bool, isdur: bool) -> Option<f64> {
@@ -328,6 +340,7 @@ impl Spec {
 			fresh: true,
 			lin_ok: true,
 			scale: 1.0,
+			ng_max: 1.0,
 			..Default::default()
 		};
 		let mut i = 2;
@@ -388,6 +401,15 @@ struct Run {
 	lsum: Inst,
 	lhalf: Inst,
 	spec: Spec,
+	/// the `new` line (to build the fresh instance of `rate_fresh_equiv`) and the `init` buffer size
+	new_line: String,
+	ibs: usize,
+	/// `dt` of the previous process call
+	last_dt: Option<f64>,
+	/// built when `dt` changes (static in-domain cases): same settings, initialised at the new rate
+	fresh: Option<Inst>,
+	/// frames the fresh instance has processed (restarted when the mode changes)
+	fresh_frames: usize,
 }
 
 /// FXA_STATS=1: count how often an oracle's premise held (`!stat eval <name>` lines, ignored by the check)
@@ -468,11 +490,124 @@ impl Spec {
 			_ => 1.0,
 		}
 	}
+	/// filter / EQ with static parameters: (relative cutoff, g, k) of the SVF design in force at `dt` (current mode)
+	fn design(&self, dt: f64) -> Option<(f64, f64, f64)> {
+		let pi = std::f64::consts::PI;
+		match self.kind.as_str() {
+			"filter" => {
+				let rf = (self.p("cutoff") * dt).clamp(0.0001, 0.5);
+				Some((rf, (pi * rf).tan(), 2.0 - 1.9 * self.p("resonance").clamp(0.0, 1.0)))
+			}
+			"eq" => {
+				let rf = (self.p("frequency") * dt).clamp(0.0001, 0.5);
+				let q = self.p("q").max(0.01);
+				let a = 10f64.powf(self.p("gain") / 40.0);
+				let t = (pi * rf).tan();
+				Some(match self.mode.as_str() {
+					"bell" => (rf, t, 1.0 / (q * a)),
+					"ls" => (rf, t / a.sqrt(), 1.0 / q),
+					_ => (rf, t * a.sqrt(), 1.0 / q),
+				})
+			}
+			_ => None,
+		}
+	}
+}
+
+/// how `rate_fresh_equiv` compares the long-running instance with the fresh one
+enum Cmp {
+	Bits,
+	Abs(f64),
+	Rel(f64),
 }
 
 impl Run {
+	/// `dt` differs from the previous process call: (re)build the fresh instance of `rate_fresh_equiv`
+	fn note_dt(&mut self, dt: f64, ids: &Ids) {
+		if self.last_dt.map_or(false, |d| d != dt) {
+			self.fresh = None;
+			self.fresh_frames = 0;
+			if self.spec.in_domain && self.spec.is_static {
+				let tok: Vec<&str> = self.new_line.split_whitespace().collect();
+				let mut f = build(&tok, ids);
+				f.fx.init((1.0 / dt).round() as u32, self.ibs);
+				if has_mode(&self.spec.kind) {
+					f.mode(&self.spec.mode);
+					f.fx.on_start_processing();
+					if let Some(m) = &self.spec.pending_mode {
+						f.mode(m);
+					}
+				}
+				self.fresh = Some(f);
+			}
+		}
+		self.last_dt = Some(dt);
+	}
+
+	/// C14/C16 `rate_fresh_equiv`: feed the fresh instance the same slices and compare once the transient is gone
+	fn check_fresh(&mut self, x: &[Frame], m: &[Frame], part: &[usize], dt: f64, info: &Info, op: &str, out: &mut Out) {
+		let Some(fr) = self.fresh.as_mut() else { return };
+		let sp = &self.spec;
+		let n0 = self.fresh_frames;
+		let mut f = x.to_vec();
+		let mut o = 0;
+		for k in part {
+			fr.process(&mut f[o..o + k], dt, info);
+			o += k;
+		}
+		self.fresh_frames += x.len();
+		// (comparison, number of frames the fresh instance must have seen before the comparison starts)
+		let cmp = match sp.kind.as_str() {
+			"vol" | "pan" | "dist" => Some((Cmp::Bits, 0usize)),
+			"filter" | "eq" => {
+				let (rf, g, k) = sp.design(dt).unwrap();
+				let r = pole_radius(g, k);
+				if !sp.wild && rf < 0.45 && r < 1.0 {
+					Some((Cmp::Abs((LIN_EPS * sp.ng_max + 1e-9) * sp.scale), (30.0 / (1.0 / r).ln()).ceil() as usize))
+				} else {
+					None
+				}
+			}
+			_ => {
+				// compressor: two envelope trajectories towards the same target approach each other by the factor
+				// exp(-dt/tau) per frame; afterwards they stay within the f32 rounding of the envelope recursion
+				let tau = sp.p("attack").max(sp.p("release"));
+				let ratio = sp.p("ratio") as f32 as f64;
+				let max_over = (20.0 * sp.scale.max(1.0).log10() - sp.p("threshold")).max(0.0) + 1.0;
+				let one_minus_speed = if tau == 0.0 { 1.0 } else { 1.0 - (-dt / tau).exp() };
+				let env_tol = 4.0 * max_over / 8388608.0 / one_minus_speed + 1e-9;
+				let rel = 10f64.powf(env_tol * (1.0 / ratio - 1.0).abs() / 20.0) - 1.0 + 1e-5;
+				if ratio != 0.0 && rel <= 0.02 {
+					Some((Cmp::Rel(rel), (30.0 * tau / dt).ceil() as usize + 1))
+				} else {
+					None
+				}
+			}
+		};
+		let Some((cmp, need)) = cmp else { return };
+		// first frame of this call at which the transient of the old state is gone
+		let from = need.saturating_sub(n0);
+		if from >= x.len() || !all_finite(&f) {
+			return;
+		}
+		evald(out, &format!("rate_fresh_equiv_{}", sp.kind));
+		let (m, f) = (&m[from..], &f[from..]);
+		let ok = match cmp {
+			Cmp::Bits => same_bits(m, f),
+			Cmp::Abs(t) => m.iter().zip(f).all(|(a, b)| close(a.left, b.left, t) && close(a.right, b.right, t)),
+			Cmp::Rel(r) => m.iter().zip(f).all(|(a, b)| {
+				let t = |u: f32, v: f32| r * (u.abs().max(v.abs()) as f64) + 1e-37;
+				close(a.left, b.left, t(a.left, b.left)) && close(a.right, b.right, t(a.right, b.right))
+			}),
+		};
+		if !ok {
+			out.oracle_fail("rate_fresh_equiv", op);
+		}
+	}
+
 	/// feed `x` (already split into slices by `part`) to the main instance and the shadows; returns main's output
-	fn feed(&mut self, x: &[Frame], part: &[usize], dt: f64, info: &Info, op: &str, out: &mut Out, y_same: bool) -> Vec<Frame> {
+	fn feed(&mut self, x: &[Frame], part: &[usize], dt: f64, info: &Info, op: &str, out: &mut Out, y_same: bool, ids: &Ids) -> Vec<Frame> {
+		self.note_dt(dt, ids);
 		let mut m = x.to_vec();
 		let mut o = 0;
 		for k in part {
@@ -504,6 +639,15 @@ impl Run {
 		if !sp.is_static {
 			return m;
 		}
+		if let Some((rf, _, _)) = sp.design(dt) {
+			if rf >= 0.45 {
+				sp.wild = true;
+			}
+		}
+		sp.ng_max = sp.ng_max.max(sp.noise_gain(dt));
+		// a long-running instance after a change of dt vs a fresh one at the new rate
+		self.check_fresh(x, &m, part, dt, info, op, out);
+		let sp = &mut self.spec;
 		// split vs whole
 		let mut w = x.to_vec();
 		self.whole.process(&mut w, dt, info);
@@ -549,7 +693,8 @@ impl Run {
 				self.lsum.process(&mut s, dt, info);
 				self.lhalf.process(&mut h, dt, info);
 				sp.scale = sp.scale.max(maxabs(&yo)).max(maxabs(&s));
-				let ng = sp.noise_gain(dt);
+				// rounding noise injected at an earlier dt (with its noise gain) may still be in the integrators
+				let ng = sp.ng_max;
 				let tol = LIN_EPS * ng * sp.scale;
 				if std::env::var("FXA_STATS").is_ok() {
 					let mut worst = 0.0f64;
@@ -680,7 +825,7 @@ fn show_frames(fs: &[Frame]) -> String {
 }
 
 /// radius of the slower pole of the trapezoidal SVF with coefficients g, k (bilinear image of s² + k s + 1 at g)
-fn pole_radius(g: f64, k: f64) -> f64 {
+pub fn pole_radius(g: f64, k: f64) -> f64 {
 	let d = k * k / 4.0 - 1.0;
 	if d >= 0.0 {
 		let z = |s: f64| ((1.0 + s) / (1.0 - s)).abs();
@@ -691,7 +836,7 @@ fn pole_radius(g: f64, k: f64) -> f64 {
 	}
 }
 /// has a transient decayed by e^-30 after n frames?
-fn settled(g: f64, k: f64, n: usize) -> bool {
+pub fn settled(g: f64, k: f64, n: usize) -> bool {
 	let r = pole_radius(g, k);
 	r < 1.0 && (n as f64) * (1.0 / r).ln() >= 30.0
 }
@@ -731,6 +876,11 @@ pub fn run(ops: &[String]) -> Vec<String> {
 						lsum: build(&tok, &ids),
 						lhalf: build(&tok, &ids),
 						spec: Spec::from_new(&tok, in_domain),
+						new_line: l.clone(),
+						ibs: 1,
+						last_dt: None,
+						fresh: None,
+						fresh_frames: 0,
 					});
 					comp_quiet = true;
 					out.put("ok");
@@ -741,22 +891,25 @@ pub fn run(ops: &[String]) -> Vec<String> {
 					for i in [&mut r.main, &mut r.whole, &mut r.ly, &mut r.lsum, &mut r.lhalf] {
 						i.fx.init(sr, ibs);
 					}
+					r.ibs = ibs;
 					out.put("ok");
 				}
 				"sr" => {
 					let r = run.as_mut().unwrap();
-					for i in [&mut r.main, &mut r.whole, &mut r.ly, &mut r.lsum, &mut r.lhalf] {
+					for i in [&mut r.main, &mut r.whole, &mut r.ly, &mut r.lsum, &mut r.lhalf].into_iter().chain(r.fresh.as_mut()) {
 						i.fx.on_change_sample_rate(pu(tok[1]) as u32);
 					}
 					out.put("ok");
 				}
 				"start" => {
 					let r = run.as_mut().unwrap();
-					for i in [&mut r.main, &mut r.whole, &mut r.ly, &mut r.lsum, &mut r.lhalf] {
+					for i in [&mut r.main, &mut r.whole, &mut r.ly, &mut r.lsum, &mut r.lhalf].into_iter().chain(r.fresh.as_mut()) {
 						i.fx.on_start_processing();
 					}
 					if let Some(m) = r.spec.pending_mode.take() {
 						r.spec.mode = m;
+						// new coefficients on both sides from here on: the settling time starts again
+						r.fresh_frames = 0;
 					}
 					out.put("ok");
 				}
@@ -769,7 +922,7 @@ pub fn run(ops: &[String]) -> Vec<String> {
 				}
 				"mode" => {
 					let r = run.as_mut().unwrap();
-					for i in [&mut r.main, &mut r.whole, &mut r.ly, &mut r.lsum, &mut r.lhalf] {
+					for i in [&mut r.main, &mut r.whole, &mut r.ly, &mut r.lsum, &mut r.lhalf].into_iter().chain(r.fresh.as_mut()) {
 						i.mode(tok[1]);
 					}
 					r.spec.pending_mode = Some(tok[1].to_string());
@@ -781,7 +934,7 @@ pub fn run(ops: &[String]) -> Vec<String> {
 					let part: Vec<usize> = tok[2].split(',').map(|s| s.parse().unwrap()).collect();
 					let x = parse_frames(&tok[3..]);
 					let info = info_state.build();
-					let m = r.feed(&x, &part, dt, &info, l, out, false);
+					let m = r.feed(&x, &part, dt, &info, l, out, false, &ids);
 					out.put(show_frames(&m));
 					let sp = &r.spec;
 					if sp.in_domain && sp.is_static && sp.kind == "comp" && sp.p("mix") >= 1.0 {
@@ -807,7 +960,7 @@ pub fn run(ops: &[String]) -> Vec<String> {
 					let part = vec![ibs; count];
 					let info = info_state.build();
 					let was_fresh = r.spec.fresh;
-					let m = r.feed(&x, &part, dt, &info, l, out, true);
+					let m = r.feed(&x, &part, dt, &info, l, out, true, &ids);
 					let (mut sum, mut nonfinite) = (0u32, 0u64);
 					for v in m.iter().flat_map(|f| [f.left, f.right]) {
 						if !v.is_finite() {
@@ -1241,6 +1394,29 @@ fn gen_probe(rng: &mut Rng, case: usize, thorough: bool, stats: &mut Stats, out:
 	let kind = rng.pick(&["filter", "eq", "comp"]);
 	stats.hit(&format!("probe_{}", kind));
 	out.push(format!("case {} in", case));
+	// rate-change probe: the instance first runs at another rate, then the device rate changes and the
+	// settled response is measured at the new rate (C14 "at any sample rate", C16)
+	let other: Vec<u32> = SAMPLE_RATES.iter().copied().filter(|r| *r != sr_hz).collect();
+	let before = if rng.chance(1, 2) { Some(rng.pick(&other)) } else { None };
+	let prelude = |rng: &mut Rng, stats: &mut Stats, out: &mut Vec<String>, quiet: bool| match before {
+		Some(sr0) => {
+			stats.hit("probe_rate_change");
+			out.push(format!("init {} 64", sr0));
+			let sig = if quiet { "zero" } else { rng.pick(&["noise", "dc", "sine", "nyq"]) };
+			let n0 = rng.range(1, 12) as u64;
+			out.push(format!(
+				"run {} {} {} {} {} 64 {}",
+				sig, o32(rng.pick(&[1.0f32, 0.5, 0.25])), o64(rng.pick(&[100.0, 440.0, 1000.0])), rng.next() >> 1, o64(1.0 / sr0 as f64), n0
+			));
+			stats.add("run_frames", 64 * n0);
+			if rng.chance(1, 6) {
+				stats.hit("probe_rate_change_bare_dt");
+			} else {
+				out.push(format!("sr {}", sr_hz));
+			}
+		}
+		None => out.push(format!("init {} 64", sr_hz)),
+	};
 	for _attempt in 0..50 {
 		let rf = log_uniform(rng, 0.004, 0.2);
 		let f = rf / dt;
@@ -1283,7 +1459,8 @@ fn gen_probe(rng: &mut Rng, case: usize, thorough: bool, stats: &mut Stats, out:
 					"new comp {} {} fix:{} fix:{} {} {}",
 					fix64(thr), fix64(ratio), att, rel, fix32(makeup), fix32(1.0)
 				));
-				out.push(format!("init {} 64", sr_hz));
+				let quiet = rng.chance(1, 2);
+				prelude(rng, stats, out, quiet);
 				out.push(format!("run dc {} {} 0 {} 64 {}", o32(amp), o64(0.0), o64(dt), n / 64 + 1));
 				stats.add("run_frames", (64 * (n / 64 + 1)) as u64);
 				return;
@@ -1301,7 +1478,7 @@ fn gen_probe(rng: &mut Rng, case: usize, thorough: bool, stats: &mut Stats, out:
 			continue;
 		}
 		out.push(newline);
-		out.push(format!("init {} 64", sr_hz));
+		prelude(rng, stats, out, false);
 		out.push(format!("run {} {} {} 0 {} 64 {}", sig, o32(amp), o64(f), o64(dt), n / 64 + 1));
 		stats.hit(&format!("probe_{}", sig));
 		stats.add("run_frames", (64 * (n / 64 + 1)) as u64);
@@ -1321,8 +1498,9 @@ pub fn gen(rng: &mut Rng, n: usize, thorough: bool, stats: &mut Stats) -> Vec<St
 		let kind = rng.pick(&["vol", "pan", "filter", "filter", "eq", "eq", "dist", "comp", "comp"]);
 		let is_static = rng.chance(1, 2);
 		let sr_hz = rng.pick(SAMPLE_RATES);
-		let sr = sr_hz as f64;
-		let dt = 1.0 / sr;
+		// the rate in force: changes within the case (`sr` op, or a bare change of dt)
+		let mut sr = sr_hz as f64;
+		let mut dt = 1.0 / sr;
 		let ibs = rng.pick(IBS);
 		out.push(format!("case {} {}", case, if ind { "in" } else { "ood" }));
 		stats.hit(&format!("fx_{}", kind));
@@ -1335,6 +1513,12 @@ pub fn gen(rng: &mut Rng, n: usize, thorough: bool, stats: &mut Stats) -> Vec<St
 		let exactish = is_static && is_linear(kind) && rng.chance(3, 4);
 		let mut long_runs = 0;
 		for _ in 0..steps {
+			if rng.chance(1, 14) {
+				// a bare change of dt (no `sr` op): the six effects take their time base from dt alone
+				sr = rng.pick(SAMPLE_RATES) as f64;
+				dt = 1.0 / sr;
+				stats.hit("dt_change");
+			}
 			let line = match rng.below(16) {
 				0 if !is_static => {
 					let k = rng.below(MAX_IDS as u64 + 1);
@@ -1366,7 +1550,16 @@ pub fn gen(rng: &mut Rng, n: usize, thorough: bool, stats: &mut Stats) -> Vec<St
 					}
 				),
 				5 | 6 => "start".to_string(),
-				7 if rng.chance(1, 4) => format!("sr {}", rng.pick(SAMPLE_RATES)),
+				7 | 10 if rng.chance(1, 2) => {
+					// device sample-rate change: `on_change_sample_rate`, then (7 times in 8) dt = 1 / new rate
+					let r = rng.pick(SAMPLE_RATES);
+					if rng.chance(7, 8) {
+						sr = r as f64;
+						dt = 1.0 / sr;
+						stats.hit("sr_then_dt");
+					}
+					format!("sr {}", r)
+				}
 				8 | 9 if long_runs < 2 => {
 					long_runs += 1;
 					let sig = rng.pick(&["zero", "dc", "dc", "imp", "step", "nyq", "noise", "noise", "sine"]);
